@@ -114,7 +114,9 @@ Lemma gen_sim_bb_run : forall c,
   g_sim_bb_run = ([1; 2], Fall) /\
   g_sim_bb_run_body true c = (if 0 <? c then ([1; 2; 4], Fall) else ([1; 3; 4], Fall)) /\
   g_sim_bb_run_body false c = ([5], RetU).
-Proof. intros c. unfold g_sim_bb_run_body. rewrite Z.gtb_ltb. repeat split. Qed.
+Proof.
+  intros c. unfold g_sim_bb_run_body. split; [reflexivity|]. split; gen_split; try reflexivity; exfalso; lia.
+Qed.
 
 (* a broadcast: every loader fills the block (1), the block is hashed (2), and every subscription gets it (4) on a
    goroutine of its own, which always sends (2 of the deliver function), delayed only for delay subscriptions *)
@@ -123,7 +125,8 @@ Lemma gen_sim_bb_broadcast : forall p d m,
   g_sim_bb_loaders_body = ([1], Fall) /\ g_sim_bb_subs_body = ([1], Fall) /\
   last (fst (g_sim_bb_deliver d m)) 0 = 2 /\ snd (g_sim_bb_deliver d m) = Fall.
 Proof.
-  intros p d m. unfold g_sim_bb_broadcast, g_sim_bb_deliver. destruct p, d, (m >? 0); cbn; auto 10.
+  intros p d m. unfold g_sim_bb_broadcast, g_sim_bb_deliver, g_sim_bb_loaders_body, g_sim_bb_subs_body.
+  destruct p, d; cbn [andb negb orb]; gen_split; cbn; auto 10.
 Qed.
 
 (* unsubscribe: the subscription is forgotten either way (3, 4); a known one is counted down (1) and, unless the
